@@ -160,11 +160,27 @@ func segDistModel(c *Ctx, rule string) {
 		c.Unk(rule, "geom#point-to-segment-distance", token.NoPos, "no (Point, Point, Point) float64 function that behaves like a distance found")
 		return
 	}
+	cases := segCases
+	if c.Thorough {
+		// a grid of positions around segments in eight directions
+		for di, dir := range [][2]int64{{60, 31}, {-60, 29}, {58, -33}, {-62, -27}, {0, 64}, {66, 0}, {0, -61}, {-63, 0}} {
+			s0 := symPt{1000 + int64(di)*400, 1100 + int64(di)*400}
+			e0 := symPt{s0.x + dir[0], s0.y + dir[1]}
+			for gx := int64(-2); gx <= 4; gx++ {
+				for gy := int64(-2); gy <= 2; gy++ {
+					// along the segment in thirds of its length, across it in steps of 17
+					px := s0.x + gx*dir[0]/3 - gy*dir[1]/3 + gy
+					py := s0.y + gx*dir[1]/3 + gy*dir[0]/3 - gx
+					cases = append(cases, segCase{fmt.Sprintf("direction %d, position (%d/3 along, %d across)", di, gx, gy), symPt{px, py}, s0, e0})
+				}
+			}
+		}
+	}
 	for _, fn := range fns {
 		cons := c.P.FuncName(fn) + "#clamped-projection"
 		pos := c.P.Decl(fn).Pos()
 		bad, unk := "", ""
-		for _, k := range segCases {
+		for _, k := range cases {
 			got, v, why := segEval(c, fn, k)
 			if why != "" {
 				if len(why) > 6 && why[:6] == "panic:" {
@@ -191,6 +207,6 @@ func segDistModel(c *Ctx, rule string) {
 				break
 			}
 		}
-		report3(c, rule, cons, pos, bad, unk, fmt.Sprintf("the squared result equals the squared distance to the nearest point of the segment as a rational term, in %d positions of the point relative to the segment (both ends, both perpendiculars, the interior, a degenerate segment)", len(segCases)))
+		report3(c, rule, cons, pos, bad, unk, fmt.Sprintf("the squared result equals the squared distance to the nearest point of the segment as a rational term, in %d positions of the point relative to the segment (both ends, both perpendiculars, the interior, a degenerate segment)", len(cases)))
 	}
 }
